@@ -8,11 +8,11 @@
   (`Sbepp.Extracted.uncheckedSites`).
 
   State of the tree this file describes: braces in diagnostics, a directory as
-  input, the constant-`char` length deduction, include cycles and offsets past
-  the content are fixed in `/repo` (their former refutations are now positive
-  theorems below).  Still open: recursion over the element nesting depth
-  (`run_no_crash` stays refuted by `witness_depth`) and files left behind when
-  an output file cannot be opened (`rejected_leaves_no_files` stays refuted by
+  input, the constant-`char` length deduction, include cycles, offsets past the
+  content and the element nesting depth (limit 64) are fixed in `/repo`; their
+  former refutations are positive theorems below and `run_no_crash` holds at
+  full strength.  Still open: files left behind when an output file cannot be
+  opened (`rejected_leaves_no_files` stays refuted by
   `witness_files_after_reject`).
 -/
 import Sbepp.Gen.Pipeline
@@ -42,13 +42,17 @@ theorem guard_table_nodup : (guardTable.map (·.1)).Nodup := by
 theorem every_site_classified : ∀ s ∈ Sbepp.Extracted.uncheckedSites, (guardOf (keyOf s)).isSome = true := by
   decide +kernel
 
-/-- the trigger is located at an extracted site that the table marks unguarded -/
-theorem trigger_sites_unguarded : ∀ t : Trigger, guardOf (siteOf t) = some (.unguarded t) := by
-  intro t; cases t <;> decide +kernel
+/-- no extracted site is left unguarded -/
+theorem no_unguarded_sites : guardTable.all (fun e => !e.2.isUnguarded) = true := by
+  decide +kernel
 
 /-- the sites of the former defects are extracted sites that are guarded now -/
 theorem fixed_sites_guarded :
     (guardOf includeSite).map Guard.isUnguarded = some false ∧
+    (guardOf ("schema_parser.hpp", "parse_composite_elements", "recursion", "calls parse_composite_encoding")).map
+      Guard.isUnguarded = some false ∧
+    (guardOf ("schema_parser.hpp", "parse_group_member", "recursion", "calls get_level_members")).map
+      Guard.isUnguarded = some false ∧
     (guardOf ("schema_parser.hpp", "parse_type_encoding", "optderef", "t.length = t.constant_value->size();")).map
       Guard.isUnguarded = some false ∧
     (guardOf ("fs_provider.hpp", "read_file", "resize", "data.resize(static_cast<std::size_t>(file_size));")).map
@@ -58,19 +62,12 @@ theorem fixed_sites_guarded :
     guardTable.all (fun e => e.1.2.2.1 != "rtfmt") = true := by
   decide +kernel
 
-/-! ## full-strength statement and its refutation on the current tree -/
-
-/-- **run_no_crash** (full strength): whatever the command line, the file
-    system and the abstract parts do, sbeppc does not crash (fuel as large as
-    the file system, see `run_terminates`). -/
-def run_no_crash : Prop :=
-  ∀ (env : Env) (fuel : Nat) (argv : List String) (fs : FS), Sound env → fs.length ≤ fuel →
-    (run env fuel argv fs).outcome.isCrash = false
+/-! ## the model's inputs used below -/
 
 /-- an environment in which nothing abstract interferes: every check passes,
     no guarded site fails, three files are emitted, the OS never refuses -/
 def envOk : Env :=
-  { stackLimit := 1000, parseDiag := fun _ => none, validate := fun _ _ => none, siteFails := fun _ _ => false,
+  { parseDiag := fun _ => none, validate := fun _ _ => none, siteFails := fun _ _ => false,
     dirs := fun _ _ => ["out/s/schema", "out/s/types", "out/s/messages"],
     files := fun _ _ => ["out/s/types/T.hpp", "out/s/schema/schema.hpp", "out/s/s.hpp"],
     mkdirFails := fun _ => false, openFails := fun _ => false }
@@ -88,18 +85,15 @@ def goodDoc : Xml := .doc [.schema schemaNode [goodTypes, .message { kind := .me
 def argvOf (file : String) : List String := ["sbeppc", "--output-dir", "out", file]
 def threeFiles : List String := ["out/s/types/T.hpp", "out/s/schema/schema.hpp", "out/s/s.hpp"]
 
-/-- witness (still open): element nesting deeper than the stack survives -/
-def deepDoc : Xml :=
-  .doc [.schema schemaNode [.types {} [{ kind := .composite, attrs := [("name", "c")], depth := 1001 }]]]
-theorem witness_depth :
-    (run envOk 1 (argvOf "s.xml") [("s.xml", .file deepDoc)]).outcome = .crash (siteOf .nestingTooDeep) := by
-  decide +kernel
-
-theorem run_no_crash_false : ¬ run_no_crash := by
-  intro h
-  have := h envOk 1 (argvOf "s.xml") [("s.xml", .file deepDoc)] envOk_sound (by decide)
-  rw [witness_depth] at this
-  simp [Outcome.isCrash] at this
+/-- composites nested 65 deep are refused, 64 deep are parsed -/
+def nestedDoc (depth : Nat) : Xml :=
+  .doc [.schema schemaNode [goodTypes, .types {} [{ kind := .composite, attrs := [("name", "c")], depth := depth }]]]
+theorem deep_nesting_is_diagnosed :
+    run envOk 1 (argvOf "s.xml") [("s.xml", .file (nestedDoc 65))]
+      = ⟨.diag "s.xml:L:C: nesting is too deep, at most 64 levels are supported", []⟩ ∧
+    (run envOk 1 (argvOf "s.xml") [("s.xml", .file (nestedDoc 100000))]).outcome
+      = .diag "s.xml:L:C: nesting is too deep, at most 64 levels are supported" ∧
+    (run envOk 1 (argvOf "s.xml") [("s.xml", .file (nestedDoc 64))]).outcome = .ok threeFiles := by decide +kernel
 
 /-- a well-formed run, for contrast (non-vacuity of everything below) -/
 theorem good_run :
@@ -153,7 +147,7 @@ theorem include_of_main_is_diagnosed :
       [("s.xml", .file (.doc [.schema schemaNode [.incl { attrs := [("href", "s.xml")] }]]))]).outcome
       = .diag "s.xml:L:C: cyclic include of `s.xml`" := by decide +kernel
 
-/-! ## what is proved: crashes only at the unguarded sites; none without the trigger -/
+/-! ## what is proved: termination and no crash, for every input -/
 
 /-- **run_terminates**: the include stack bounds the nesting of
     `schema_parser` instances by the number of files — for *every* file system
@@ -163,7 +157,7 @@ theorem run_terminates (env : Env) (fuel : Nat) (argv : List String) (fs : FS) (
   intro h
   rcases front_error_p h with ⟨m, hm⟩ | ⟨cfg, _, hp⟩
   · cases hm
-  · exact errs_parseMain diagOk_notFuel (fsOk_notFuel env fs) fuel cfg.file hf _ hp
+  · exact errs_parseMain diagOk_notFuel fuel cfg.file hf _ hp
 
 /-- **run_fuel_stable**: beyond that bound more fuel changes nothing — the
     result is that of the C++ recursion, which has no fuel. -/
@@ -187,55 +181,25 @@ def chainFs : FS :=
 example : (run envOk 3 (argvOf "s.xml") chainFs).outcome = .ok threeFiles := by decide +kernel
 example : front envOk 1 (argvOf "s.xml") chainFs = .error (.p .fuel) := by rfl
 
-/-- **crash_only_at_unguarded**: if the guard table's claims about the guarded
-    sites hold, every crash of the model happens at a site the table marks
-    `unguarded`. -/
-theorem crash_only_at_unguarded (env : Env) (fuel : Nat) (argv : List String) (fs : FS) (hs : Sound env)
-    (hf : fs.length ≤ fuel) (s : SiteKey) (h : (run env fuel argv fs).outcome = .crash s) :
-    ∃ t, guardOf s = some (.unguarded t) := by
-  rcases run_cases env fuel argv fs with ⟨e, he, hr⟩ | hr | ⟨cfg, p, _, ⟨d, hr⟩ | hr | ⟨f, w, _, hr⟩⟩
-  · rw [hr] at h
-    cases e with
-    | p ps =>
-      cases ps with
-      | diag m => cases h
-      | crash t => simp only [report] at h; cases h; exact ⟨_, trigger_sites_unguarded _⟩
-      | fuel => exact absurd he (run_terminates env fuel argv fs hf)
-    | guarded g => exact absurd he (sound_no_guarded hs)
-  · rw [hr] at h; cases h
-  · rw [hr] at h; cases h
-  · rw [hr] at h; cases h
-  · rw [hr] at h; cases h
-
-/-- the trigger excluded on the input side: in every document the element
-    nesting stays below what the stack survives -/
-def DepthOk (env : Env) (fs : FS) : Prop := FsOk IsDiag env fs
-
-/-- **run_no_crash_partial**: the model never crashes on an input whose
-    nesting depth the stack survives — whatever else the command line, the
-    files (missing, directories, malformed, cyclic includes, any attribute
-    text) and the abstract stages do. -/
-theorem run_no_crash_partial (env : Env) (fuel : Nat) (argv : List String) (fs : FS)
-    (hs : Sound env) (hf : fs.length ≤ fuel) (hd : DepthOk env fs) :
-    (run env fuel argv fs).outcome.isCrash = false := by
+/-- **run_no_crash** (full strength): whatever the command line, the file
+    system (missing files, directories, malformed XML, cyclic includes, any
+    nesting depth, any attribute text) and the abstract stages do, the model
+    does not crash — given the guard table's claims about the guarded sites
+    (`Sound`) and fuel as large as the file system (`run_terminates`). -/
+theorem run_no_crash (env : Env) (fuel : Nat) (argv : List String) (fs : FS)
+    (hs : Sound env) (hf : fs.length ≤ fuel) : (run env fuel argv fs).outcome.isCrash = false := by
   rcases run_cases env fuel argv fs with ⟨e, he, hr⟩ | hr | ⟨cfg, p, _, ⟨d, hr⟩ | hr | ⟨f, w, _, hr⟩⟩
   · rw [hr]
     cases e with
     | p ps =>
       cases ps with
       | diag m => rfl
-      | crash t =>
-        rcases front_error_p he with ⟨m, hm⟩ | ⟨cfg, _, hp⟩
-        · cases hm
-        · exact absurd (errs_parseMain diagOk_isDiag hd fuel cfg.file hf _ hp) (by simp [IsDiag])
       | fuel => exact absurd he (run_terminates env fuel argv fs hf)
     | guarded g => exact absurd he (sound_no_guarded hs)
   all_goals (rw [hr]; rfl)
 
-/-- non-vacuity: the well-formed run, the cyclic one and the directory satisfy the hypothesis -/
-example : DepthOk envOk [("s.xml", .file goodDoc)] ∧ DepthOk envOk cycFs ∧ DepthOk envOk [("adir", .dir)] :=
-  ⟨fsOk_of_entries _ _ (by decide +kernel), fsOk_of_entries _ _ (by decide +kernel),
-   fsOk_of_entries _ _ (by decide +kernel)⟩
+/-- non-vacuity: `envOk` is sound, and the runs above satisfy the fuel bound -/
+example : Sound envOk ∧ cycFs.length ≤ 2 := ⟨envOk_sound, by decide⟩
 
 /-! ## a rejected schema leaves no generated files -/
 
